@@ -353,9 +353,24 @@ func execAtomic(c *atomicCase) []string {
 			if cmd.Vec == nil {
 				arg = nil
 			}
+			// what the API receives may carry, after the words the model knows, bytes no probe ever
+			// asks for: ill-formed UTF-8, a NUL, a long tail (any text is a legal text)
+			apiText := cmd.Text
+			if cmd.Text != "" {
+				switch (len(cmd.Text) + cmd.Slot) % 7 {
+				case 0:
+					apiText += " caf\xe9 latte"
+				case 1:
+					apiText += " \xff\xfe"
+				case 2:
+					apiText += " \x00"
+				case 3:
+					apiText += strings.Repeat(" zz", 3000)
+				}
+			}
 			id, known := slotID[cmd.Slot]
 			if cmd.Op == "add" && !known {
-				nid, err := idx.Add(arg, cmd.Text, m)
+				nid, err := idx.Add(arg, apiText, m)
 				slotID[cmd.Slot] = nid
 				res := "ok"
 				if err != nil {
@@ -363,7 +378,7 @@ func execAtomic(c *atomicCase) []string {
 				}
 				lines = append(lines, fmt.Sprintf("op add %s %s %s => %s %d", core.VecHex(v), textArg(cmd.Text), metaArg(cmd.Meta), res, nid))
 			} else {
-				err := idx.AddWithID(id, arg, cmd.Text, m)
+				err := idx.AddWithID(id, arg, apiText, m)
 				res := "ok"
 				if err != nil {
 					res = "err"
@@ -462,6 +477,30 @@ func execAtomic(c *atomicCase) []string {
 					out = idsLine("ok", ids)
 				}
 				lines = append(lines, fmt.Sprintf("op probemeta s %s %s => %s", cmd.K, cmd.V, out))
+			}
+			// the same field through Exists (its own code path and caches)
+			fe := comet.Exists(cmd.K)
+			hres, err = idx.NewSearch().WithMetadata(fe).WithK(bigK).Execute()
+			out = "err"
+			if err == nil {
+				ids := make([]uint32, len(hres))
+				for i, h := range hres {
+					ids[i] = h.ID
+				}
+				out = idsLine("ok", ids)
+			}
+			lines = append(lines, fmt.Sprintf("op probeex h %s => %s", cmd.K, out))
+			if meta != nil {
+				sres, err := meta.NewSearch().WithFilters(fe).Execute()
+				out = "err"
+				if err == nil {
+					ids := make([]uint32, len(sres))
+					for i, h := range sres {
+						ids[i] = h.GetId()
+					}
+					out = idsLine("ok", ids)
+				}
+				lines = append(lines, fmt.Sprintf("op probeex s %s => %s", cmd.K, out))
 			}
 		}
 	}
